@@ -493,9 +493,9 @@ macro_rules! gen_mods {
     ($fname:ident, $kind:tt, $body_u:ident, $body_i:ident ; $(($um:ident, $im:ident, $U:ty, $S:ty $(, $rest:tt)*)),* $(,)?) => {
         $(
             #[allow(non_snake_case, unused_imports)]
-            pub mod $um { use super::*; $body_u!($kind, $U, $U, $S); }
+            pub mod $um { use super::*; $body_u!($kind, $U, $U, $S $(, $rest)*); }
             #[allow(non_snake_case, unused_imports)]
-            pub mod $im { use super::*; $body_i!($kind, $S, $U, $S); }
+            pub mod $im { use super::*; $body_i!($kind, $S, $U, $S $(, $rest)*); }
         )*
         pub fn $fname(cfg: &str, g: &str, args: &$crate::Args, out: &mut String) -> bool {
             match cfg {
